@@ -55,11 +55,16 @@ func vh_C17_reported_attrs() {
 	uid, gid := vNondetU32(), vNondetU32()
 	base := vFI{name: "ignored", size: size, mode: mode, mtime: time.Unix(mtime, 999)}
 	owner := true
-	switch vChoice(3) {
+	switch vChoice(4) {
 	case 0:
 		base.sys = &syscall.Stat_t{Uid: uid, Gid: gid}
 		vStatFI = &base
 	case 1:
+		vStatFI = &vFIUidGid{vFI: base, uid: uid, gid: gid}
+	case 2:
+		// both sources, disagreeing: Uid()/Gid() take precedence (documented in
+		// fileStatFromInfo; added after seeded change C17-e)
+		base.sys = &syscall.Stat_t{Uid: uid + 1, Gid: gid + 1}
 		vStatFI = &vFIUidGid{vFI: base, uid: uid, gid: gid}
 	default:
 		owner = false
